@@ -109,7 +109,9 @@ def write_epub(book: dict, opf_dir: str = "OEBPS") -> bytes:
             continue
         files[f"{pre}ch{n}.xhtml"] = (ch["raw_xhtml"].encode() if isinstance(ch, dict) and "raw_xhtml" in ch
                                       else write_html(ch, xhtml=True))
-        man = f'<item id="ch{n}" href="ch{n}.xhtml" media-type="application/xhtml+xml"/>' + man   # manifest order != spine order
+        # old converters declare their (X)HTML chapters with other media types (OEB 1.x, plain XML): chapters all the same
+        mt = {1: "text/x-oeb1-document", 3: "application/xml"}.get(n % 5, "application/xhtml+xml")
+        man = f'<item id="ch{n}" href="ch{n}.xhtml" media-type="{mt}"/>' + man   # manifest order != spine order
         # every third chapter is auxiliary content (linear="no": answers, notes): part of the book all the same
         spine += f'<itemref idref="ch{n}"' + (' linear="no"' if n % 3 == 2 else (' linear="yes"' if n % 3 == 0 else "")) + "/>"
     for k, img in enumerate(book.get("images") or [], start=1):
